@@ -23,6 +23,22 @@ SCHEMA2 = f'''<xs:schema {XS} elementFormDefault="qualified" targetNamespace="ur
  </xs:sequence></xs:complexType></xs:element></xs:schema>'''
 
 
+# third template: QName-valued content and attributes; prefixes are declared on the root, on a chunk, or below it
+SCHEMA3 = f'''<xs:schema {XS}><xs:element name="r"><xs:complexType><xs:sequence>
+ <xs:element name="q" maxOccurs="unbounded"><xs:complexType><xs:sequence><xs:element name="n" type="xs:QName" minOccurs="0" maxOccurs="unbounded"/></xs:sequence>
+  <xs:attribute name="a" type="xs:QName"/></xs:complexType></xs:element></xs:sequence></xs:complexType></xs:element></xs:schema>'''
+
+
+def gen3(rng):
+    def decl(): return rng.choice(['', '', ' xmlns:p="urn:p"', ' xmlns:q="urn:q"', ' xmlns:p="urn:other"'])
+    def qn(): return rng.choice(['p:x', 'q:y', 'z', 'p:w'])
+    chunks = []
+    for _ in range(rng.randrange(1, 4)):
+        ns_ = ''.join(f'<n{decl()}>{qn()}</n>' for _ in range(rng.randrange(0, 3)))
+        chunks.append(f'<q{decl()}' + (f' a="{qn()}"' if rng.random() < .6 else '') + f'>{ns_}</q>')
+    return f'<r{decl()}>' + ''.join(chunks) + '</r>'
+
+
 def gen2(rng):
     parts = [f'<t:code>{rng.choice(["AB12", "XY", "12", "ab1"])}</t:code>' for _ in range(rng.randrange(1, 4))]
     parts += [f'<t:label>{rng.choice(["hello", "2020-01-01", ""])}</t:label>' for _ in range(rng.randrange(0, 3))]
@@ -40,7 +56,7 @@ def stream(res):
 def eval_doc(args):
     ver, doc = args[:2]; which = args[2] if len(args) > 2 else 1
     import xmlschema
-    s = _S.get((ver, which)) or _S.setdefault((ver, which), _cls(ver)(docgen.SCHEMA if which == 1 else SCHEMA2))
+    s = _S.get((ver, which)) or _S.setdefault((ver, which), _cls(ver)({1: docgen.SCHEMA, 2: SCHEMA2, 3: SCHEMA3}[which]))
     problems = []; reported = []
     try:
         e0 = [(e.reason, type(e).__name__) for e in s.iter_errors(doc)]
@@ -94,8 +110,10 @@ def run(tier, seed, open_findings):
     jobs = [(ver, d) for d in docs for ver in ('1.0', '1.1')]
     docs2 = [gen2(rng) for _ in range(n // 3)]
     jobs += [(ver, d, 2) for d in docs2 for ver in ('1.0', '1.1')]
+    docs3 = [gen3(rng) for _ in range(n // 2)]
+    jobs += [(ver, d, 3) for d in docs3 for ver in ('1.0', '1.1')]
     res = pmap(eval_doc, jobs)
-    fails = [dict(case=dict(doc=r['doc'], ver=r['ver'], template=2 if '<t:code>' in r['doc'] or '<t:r xmlns:t="urn:t"><t:' in r['doc'] and 't:item' not in r['doc'] else 1), observed=r['problems'], required='lazy = eager') for r in res if r['problems']]
+    fails = [dict(case=dict(doc=r['doc'], ver=r['ver'], template=3 if r['doc'].startswith('<r') else (2 if '<t:code>' in r['doc'] or '<t:r xmlns:t="urn:t"><t:' in r['doc'] and 't:item' not in r['doc'] else 1)), observed=r['problems'], required='lazy = eager') for r in res if r['problems']]
     known = {}
     for r in res:
         if 'KNOWN:C06-lazy-decode-drops-nested-xmlns' in r['reported']:
